@@ -578,6 +578,11 @@ def emit(x):
     fields = [f"n_{c} : nat" for c in x["counts"]] + [f"f_{f} : bool" for f in x["flags"]] + \
              [f"v_{n} : nat" for n in x["nums"]]
     A("Record counts := mk_counts { " + "; ".join(fields) + " }.")
+    A("(* a concrete project shape used for witnesses: one source file holding one module, sources shown,")
+    A("   every other collection empty, every other flag off, numbers 10 *)")
+    vals = [("1" if c in ("files", "modules") else "0") for c in x["counts"]] + \
+           [("true" if f == "incl_src" else "false") for f in x["flags"]] + ["10" for _ in x["nums"]]
+    A("Definition sample_one_file : counts := mk_counts " + " ".join(vals) + ".")
     A("")
     A("(* (a) Documentation.__init__: list page <name> is written iff ... *)")
     for i, (page, cond, src) in enumerate(x["list_pages"]):
